@@ -1,7 +1,7 @@
 (* C08 -- accelerated and black-box solves: property theorems about the control logic. *)
 From Coq Require Import List Arith Bool Lia.
 Import ListNotations.
-Require Import PV.Model.Cycle PV.Proofs.CycleProofs PV.Model.Accel.
+Require Import PV.Model.Cycle PV.Proofs.CycleProofs PV.Model.Accel PV.Proofs.AccelProofs.
 
 (* the preconditioner handed to the accelerator is one cycle of the requested type from the
    zero guess, i.e. exactly the textbook operator M of C03 *)
@@ -12,23 +12,11 @@ Print Assumptions C08_preconditioner_is_one_cycle.
 
 (* SciPy-style accelerators: the residual history is seeded with the initial residual and gets
    exactly one entry per callback invocation (iterate or scalar), in order *)
-Lemma fallback_history_spec V F (rn : V -> F) x0 calls :
-  fallback_history V F rn x0 calls =
-  rn x0 :: map (fun c => match c with CbVec _ _ x => rn x | CbScalar _ _ s => s end) calls.
-Proof.
-  assert (G : forall cs acc, fold_left (wrapper_step V F rn) cs acc =
-              acc ++ map (fun c => match c with CbVec _ _ x => rn x | CbScalar _ _ s => s end) cs).
-  { induction cs as [|c cs IH]; intro acc; cbn [fold_left map]; [now rewrite app_nil_r|].
-    rewrite IH. unfold wrapper_step. now rewrite <- app_assoc. }
-  unfold fallback_history. rewrite G. reflexivity.
-Qed.
 Theorem C08_history_populated : forall V F (rn : V -> F) x0 calls,
   fallback_history V F rn x0 calls =
     rn x0 :: map (fun c => match c with CbVec _ _ x => rn x | CbScalar _ _ s => s end) calls /\
   length (fallback_history V F rn x0 calls) = S (length calls).
-Proof.
-  intros. split; [apply fallback_history_spec|]. rewrite fallback_history_spec. cbn. now rewrite map_length.
-Qed.
+Proof. exact history_populated. Qed.
 Print Assumptions C08_history_populated.
 
 (* the black-box call accelerates Hermitian problems with CG and all others with GMRES *)
